@@ -3,6 +3,7 @@ CONSTANTS
   MaxConns = 5
   AcceptMode = "loop"
   MaxAccepts = 16
+  AbortEndsLoop = FALSE
 VIEW view
 ACTION_CONSTRAINT Emit
 INVARIANTS NoStrandedConn AnsweredWereMade
